@@ -11,7 +11,7 @@ import typing
 from pathlib import Path
 from typing import Optional, Tuple
 
-from jedi.inference.compiled.getattr_static import getattr_static
+from jedi.inference.compiled.getattr_static import getattr_static, _safe_hasattr
 
 ALLOWED_GETITEM_TYPES = (str, list, tuple, bytes, bytearray, dict)
 
@@ -211,10 +211,14 @@ class DirectObjectAccess:
         return tuple(self._create_access_path(cls) for cls in self._obj.__mro__[1:])
 
     def py__getitem__all_values(self):
+        # Use the builtin methods directly: a subclass might override `values`
+        # or `__iter__` and we don't want to execute those.
         if isinstance(self._obj, dict):
-            return [self._create_access_path(v) for v in self._obj.values()]
-        if isinstance(self._obj, (list, tuple)):
-            return [self._create_access_path(v) for v in self._obj]
+            return [self._create_access_path(v) for v in dict.values(self._obj)]
+        if isinstance(self._obj, list):
+            return [self._create_access_path(v) for v in list.__iter__(self._obj)]
+        if isinstance(self._obj, tuple):
+            return [self._create_access_path(v) for v in tuple.__iter__(self._obj)]
 
         if self.is_instance():
             cls = DirectObjectAccess(self._inference_state, self._obj.__class__)
@@ -323,11 +327,9 @@ class DirectObjectAccess:
         return dir(self._obj)
 
     def has_iter(self):
-        try:
-            iter(self._obj)
-            return True
-        except TypeError:
-            return False
+        # Look the iteration protocol up on the type without calling `iter`,
+        # which would execute a custom `__iter__`.
+        return _safe_hasattr(self._obj, '__iter__') or _safe_hasattr(self._obj, '__getitem__')
 
     def is_allowed_getattr(self, name, safe=True) -> Tuple[bool, bool, Optional[AccessPath]]:
         # TODO this API is ugly.
